@@ -194,14 +194,41 @@ def pred_slot_parent_flag_before_subcommand(f):
     return False
 
 
+def _names_words(f):
+    return slot_words(f["case"][1:])[0]
+
+
+def pred_names_flag_before_subcommand(f):
+    """names record for a sub-command with a flag word typed before the sub-command name"""
+    ws = _names_words(f)
+    return len(f["impl"]) > 1 and f["impl"][1] == b"names" and \
+        any(_is_sub(w) and any(len(x) > 1 and x.startswith(b"-") for x in ws[:k]) for k, w in enumerate(ws))
+
+
+def pred_names_subcommand_after_flag(f):
+    """an offered sub-command name that cobra does not dispatch to because of a flag word typed before it"""
+    d = f.get("detail", b"")
+    return len(f["impl"]) > 1 and f["impl"][1] == b"subs" and any(len(x) > 1 and x.startswith(b"-") for x in _names_words(f)) and \
+        (b":rejected:unknown flag" in d or b":rejected:unknown shorthand" in d or b":dispatched-to-" in d or b":rejected:flag needs an argument" in d)
+
+
 def pred_slot_chain_before_subcommand(f):
-    """a chain of shorthands (-abc, no `=`) directly before a sub-command name"""
+    """a chain of shorthands (-abc, no `=`) typed before a sub-command name"""
     import re
     ws, _ = slot_words(f["case"])
-    return any(re.fullmatch(rb"-[A-Za-z]{2,}", a) and _is_sub(b) for a, b in zip(ws, ws[1:]))
+    return any(_is_sub(w) and any(re.fullmatch(rb"-[A-Za-z]{2,}", a) for a in ws[:k]) for k, w in enumerate(ws))
 
 
 PROPS = {
+    "C07": dict(streams=[dict(harness="names", model=None, oracle="names_oracle", quick=5000, thorough=60000,
+                              nontrivial=lambda f, impl: len(impl) > 1 and impl[1] in (b"names", b"subs"))],
+                tie="Model/Flags.v names_offered / subcommand_names evaluated (extracted) on the flag set and given flags of the resolved command <-> the names the real `_carapace export` offers on the same tree and line",
+                rule="generated command trees (as C01; plus one mutually exclusive group per command among its local and persistent flags, deprecated shorthands), 0-4 typed words "
+                     "from the tree's vocabulary, CARAPACE_HIDDEN on in a third of the cases; current word: -, --, a prefix of --name, a chain of 1-3 shorthand letters (mostly "
+                     "letters that take no argument, sometimes an unknown letter), empty, or a prefix of a sub-command name. Judged when cobra itself accepts the typed words: "
+                     "(a) flag-name positions: offered names = rule(flags cobra presents for the resolved command, flags cobra reports as given, letters of the chain); "
+                     "(b) first positional of a command: offered sub-command names = rule(sub-commands); (c) every offered name appended to the line (with a value if the flag "
+                     "needs one) is executed by a fresh identical tree: it must be accepted, stay in / dispatch to the right command and set the flag the name stands for"),
     "C01": dict(streams=[dict(harness="slotfrag", model="slot", oracle=None, quick=6000, thorough=60000, nontrivial=lambda f, impl: len(impl) > 1 and impl[1] != b"M"),
                          dict(harness="slot", model=None, oracle_py=slot_oracle, quick=9000, thorough=120000,
                               nontrivial=lambda f, impl: len(impl) > 2 and impl[2] not in (b"-", b"rejected"))],
